@@ -117,9 +117,16 @@ func (o *OpenAPI3Importer) convertSpec(spec *openapi3.T) (string, error) {
 		o.schemaNames[sName] = struct{}{}
 	}
 
-	// Convert types
+	// Convert types, in name order: two schema names can map to one Sysl name (1abc and _1abc), and which of them
+	// is kept must not depend on map iteration order.
+	schemaNames := make([]string, 0, len(spec.Components.Schemas))
+	for name := range spec.Components.Schemas {
+		schemaNames = append(schemaNames, name)
+	}
+	sort.Strings(schemaNames)
 	o.types = TypeList{}
-	for name, ref := range spec.Components.Schemas {
+	for _, name := range schemaNames {
+		ref := spec.Components.Schemas[name]
 		sName := getSyslSafeName(name)
 		if _, found := o.types.Find(sName); !found {
 			if ref.Value == nil {
